@@ -297,8 +297,11 @@ CLAIMS["C06"] = dict(
          "capture set treating #loop_y and #endloop_y alike, input, driver script and variable x, the depth of "
          "#loop_x / #endloop_x along the whole activation never goes below zero and ends at zero however iterations "
          "and the activation are left (C06_loop_markers_balanced; C06_rewritten_loop_markers_balanced for the "
-         "rewritten function; C06_generic_capture_symmetric). NOT proved: #value exactly once per normal completion "
-         "(false: F7c, F7d) and the #yield / #receive pairing over whole runs; the oracle checks the merged meta-event "
+         "rewritten function; C06_one_end_per_iteration: as many ends as begins; C06_generic_capture_symmetric). "
+         "#yield / #receive: another instance of the invariant theorem, whose kit treats a yield expression as one "
+         "step — along the whole activation no #receive occurs without the #yield it answers directly before it, "
+         "whatever the driver does (C06_yield_receive_paired, C06_rewritten_yield_receive_paired). NOT proved: "
+         "#value exactly once per normal completion (false: F7c, F7d); the oracle checks the merged meta-event "
          "stream of generated programs against the bracket grammar. " + TIE,
     design_ref="DESIGN.md section 5, C06",
     note=NOTE_M2 + "Known finding F7c (a return in a finally block cancels an exception after #error was delivered). "
